@@ -153,10 +153,7 @@ def opBec2ReadText : List String → String
   | [chk, es, t] =>
     match parseEncs es, parseStr t with
     | some encs, some s =>
-      let r := do
-        let (cm, bin) ← Text.parseText s
-        let f ← readBinary P256.env encs (chk == "1") bin
-        pure (cm, f)
+      let r := Entry.readBec2 P256.env encs (chk == "1") s
       match r with
       | .ok (cm, f) => "ok " ++ showComments cm ++ " " ++ showFile f
       | .error e => "err " ++ e.name
